@@ -445,3 +445,27 @@ def run_batch(binary, flavour, cases, workdir, tag, thorough=False):
     if missing:
         raise HarnessFailure('cases without log records: %s' % missing[:5])
     return logs
+
+
+def gcov_summary(covdir, functions):
+    """line coverage of the library files (and of selected functions) from a --coverage build"""
+    out = {}
+    for src in ('cJSON', 'cJSON_Utils'):
+        gcda = os.path.join(covdir, 'cov-%s.gcda' % src)
+        if not os.path.exists(gcda):
+            continue
+        r = subprocess.run(['gcov', '-f', '-o', covdir, gcda], cwd=covdir, stdout=subprocess.PIPE, stderr=subprocess.DEVNULL, text=True)
+        cur = None
+        for line in r.stdout.splitlines():
+            m = re.match(r"(Function|File) '([^']+)'", line)
+            if m:
+                cur = (m.group(1), m.group(2))
+                continue
+            m = re.match(r'Lines executed:([0-9.]+)% of (\d+)', line)
+            if m and cur:
+                if cur[0] == 'File' and cur[1].endswith(src + '.c'):
+                    out[src + '.c'] = '%s%% of %s lines' % (m.group(1), m.group(2))
+                elif cur[0] == 'Function' and cur[1] in functions:
+                    out[cur[1]] = '%s%% of %s' % (m.group(1), m.group(2))
+                cur = None
+    return out
